@@ -6,6 +6,8 @@ state machine over its own histories (Props/C02.lean) — holds for the server o
 import CoreDhcp.Model.ServerState
 import CoreDhcp.Props.System
 import CoreDhcp.Props.C02
+import CoreDhcp.Props.C08
+import CoreDhcp.Props.C09
 namespace CoreDhcp
 open Sys
 open Plug (lookup)
@@ -561,5 +563,287 @@ example :
         ⟨2000, some 1, none⟩, ⟨3000, none, none⟩] tr = [some 0, some 1, none] ∧
       C02.holds ⟨0x0a000001#32, 0x0a000002#32, 3600000000000⟩ (projEvs tr) = true :=
   ⟨_, _, _, rfl, rfl, by decide, by decide, rfl, by decide, by decide⟩
+
+/-! ## DHCPv6: `prefix` in the composed server over histories -/
+
+/-- a step of the stateful DHCPv6 server: either `prefix` was not reached — no event, state and choices untouched —
+or it is one `PState.handleMsg` of the state before it, on the message of the datagram -/
+theorem step6_handle (bound : Nat) (oob : Option Nat) (chain : List Elem6) (ps : PState) (d : Dg6)
+    (cs : List (Option Nat)) (r : Step6)
+    (h : step6 bound oob chain ⟨some ps⟩ d cs = some r) :
+    (r.ev = none ∧ r.st = ⟨some ps⟩ ∧ r.cs = cs) ∨
+    (∃ ps' resp cs', ps.handleMsg (opOfDg6 d).client d.iapds d.now cs = some (ps', resp, cs') ∧ r.st = ⟨some ps'⟩ ∧
+      r.cs = cs' ∧ r.ev = some ⟨(opOfDg6 d).client, d.iapds, d.now, d.now, resp⟩) := by
+  cases hin : d.input with
+  | none =>
+    simp only [step6, hin, Option.some.injEq] at h
+    subst h
+    exact Or.inl ⟨rfl, rfl, rfl⟩
+  | some pkt =>
+    simp only [step6, hin] at h
+    cases hh : ps.handleMsg (clientOf pkt) d.iapds d.now cs with
+    | none => rw [hh] at h; cases h
+    | some p =>
+      obtain ⟨ps', resp, cs'⟩ := p
+      rw [hh] at h
+      dsimp only at h
+      cases hre : reached6 chain (inst6 (pdOut resp) chain) pkt
+      · rw [hre] at h
+        simp only [Bool.false_eq_true, if_false, Option.some.injEq] at h
+        subst h
+        exact Or.inl ⟨rfl, rfl, rfl⟩
+      · rw [hre] at h
+        simp only [if_true, Option.some.injEq] at h
+        subst h
+        refine Or.inr ⟨ps', resp, cs', ?_, rfl, rfl, ?_⟩
+        · simp only [opOfDg6, hin, Option.bind_some]; exact hh
+        · simp only [opOfDg6, hin, Option.bind_some]
+
+/-- **The DHCPv6 server-level history projects onto a history of `prefix`.** Along any run of the stateful server, the
+sequence of `prefix` states is a run of `PState.run` (the one `C08_holds`/`C09_holds` speak about) on the sub-history of
+the messages that reached `prefix`, over the same stream of allocator choices (a datagram that does not reach `prefix`
+consumes none); its events are the events of the trace, and the messages are a sub-list of the messages of the datagrams. -/
+theorem SYSST_prefix_steps_are_handles (bound : Nat) (oob : Option Nat) (chain : List Elem6) (s0 : PState)
+    (dgs : List Dg6) (cs : List (Option Nat)) (tr : List Step6) (z : St6)
+    (h : run6 bound oob chain ⟨some s0⟩ dgs cs = some (tr, z)) :
+    ∃ z', z.pfx = some z' ∧ PState.run s0 (projOps6 tr) cs = some (projEvs6 tr, z') ∧
+      (projOps6 tr).Sublist (dgs.map opOfDg6) := by
+  induction dgs generalizing s0 cs tr z with
+  | nil =>
+    simp only [run6, Option.some.injEq, Prod.mk.injEq] at h
+    obtain ⟨rfl, rfl⟩ := h
+    exact ⟨s0, rfl, rfl, List.Sublist.refl _⟩
+  | cons d ds ih =>
+    simp only [run6] at h
+    cases hs : step6 bound oob chain ⟨some s0⟩ d cs with
+    | none => rw [hs] at h; cases h
+    | some r =>
+      rw [hs] at h
+      dsimp only at h
+      cases hr : run6 bound oob chain r.st ds r.cs with
+      | none => rw [hr] at h; cases h
+      | some p =>
+        obtain ⟨tr', z1⟩ := p
+        rw [hr] at h
+        simp only [Option.map_some, Option.some.injEq, Prod.mk.injEq] at h
+        obtain ⟨rfl, rfl⟩ := h
+        rcases step6_handle bound oob chain s0 d cs r hs with ⟨hev, hst, hcs⟩ | ⟨ps', resp, cs', hh, hst, hcs, hev⟩
+        · rw [hst, hcs] at hr
+          obtain ⟨z', hz, hrun, hsub⟩ := ih s0 cs tr' z1 hr
+          refine ⟨z', hz, ?_, ?_⟩
+          · simp only [projOps6, projEvs6, List.filterMap_cons, hev]
+            exact hrun
+          · simp only [projOps6, projEvs6, List.filterMap_cons, hev, List.map_cons]
+            exact List.Sublist.cons _ hsub
+        · rw [hst, hcs] at hr
+          obtain ⟨z', hz, hrun, hsub⟩ := ih ps' cs' tr' z1 hr
+          refine ⟨z', hz, ?_, ?_⟩
+          · simp only [projOps6, projEvs6, List.filterMap_cons, hev, List.map_cons, opOfEv6, PState.run, hh]
+            simp only [projOps6, projEvs6] at hrun
+            rw [hrun]
+            rfl
+          · simp only [projOps6, projEvs6, List.filterMap_cons, hev, List.map_cons, opOfEv6]
+            exact List.Sublist.cons_cons _ hsub
+
+/-- a datagram that does not reach `prefix` leaves its records and the allocator untouched and consumes no choice -/
+theorem SYSST_unreached_keeps_state6 (bound : Nat) (oob : Option Nat) (chain : List Elem6) (st : St6) (d : Dg6)
+    (cs : List (Option Nat)) (r : Step6)
+    (h : step6 bound oob chain st d cs = some r) (hev : r.ev = none) : r.st = st ∧ r.cs = cs := by
+  cases st with
+  | mk pfx =>
+    cases pfx with
+    | none =>
+      simp only [step6, Option.some.injEq] at h
+      subst h; exact ⟨rfl, rfl⟩
+    | some ps =>
+      rcases step6_handle bound oob chain ps d cs r h with ⟨_, hst, hcs⟩ | ⟨_, _, _, _, _, _, hev'⟩
+      · exact ⟨hst, hcs⟩
+      · rw [hev] at hev'; cases hev'
+
+/-- a message with a Client-ID is answered with a list of IA_PDs -/
+theorem handleMsg_some_resp (s s' : PState) (c : ClientKey) (iapds : List IAPDReq) (now : Int)
+    (cs cs' : List (Option Nat)) (resp : Option (List IAPDResp))
+    (h : s.handleMsg (some c) iapds now cs = some (s', resp, cs')) : ∃ rs, resp = some rs := by
+  have hgo : ∀ (qs : List IAPDReq) (s : PState) (acc : List IAPDResp) (cs : List (Option Nat)),
+      PState.handleMsg.go now c s acc cs qs = some (s', resp, cs') → ∃ rs, resp = some rs := by
+    intro qs
+    induction qs with
+    | nil =>
+      intro s acc cs h
+      rw [PrefixProof.go_nil] at h
+      simp only [Option.some.injEq, Prod.mk.injEq] at h
+      exact ⟨acc, h.2.1.symm⟩
+    | cons q rest ih =>
+      intro s acc cs h
+      rw [PrefixProof.go_cons] at h
+      cases hq : s.handleIAPD c q now cs with
+      | none => rw [hq] at h; cases h
+      | some p =>
+        obtain ⟨s1, r, cs1⟩ := p
+        rw [hq] at h
+        exact ih s1 _ cs1 h
+  exact hgo iapds s [] cs h
+
+theorem neverStops6_notPd (l : List Elem6) (h : l.all neverStops6 = true) : l.all (fun e => !isPd e) = true := by
+  apply List.all_eq_true.mpr
+  intro e he
+  have := List.all_eq_true.mp h e he
+  cases e <;> simp_all [neverStops6, isPd]
+
+theorem inst6_noPd (out : List PdAns) (l : List Elem6) (h : l.all (fun e => !isPd e) = true) : inst6 out l = l := by
+  induction l with
+  | nil => rfl
+  | cons e rest ih =>
+    simp only [List.all_cons, Bool.and_eq_true] at h
+    have := ih h.2
+    simp only [inst6, List.map_cons] at this ⊢
+    rw [this]
+    cases e <;> simp_all [isPd]
+
+theorem pdIdx_split (pre post : List Elem6) (x : List PdAns) (h : pre.all (fun e => !isPd e) = true) :
+    (pre ++ Elem6.pd x :: post).findIdx? isPd = some pre.length := by
+  induction pre with
+  | nil => simp [List.findIdx?_cons, isPd]
+  | cons e rest ih =>
+    simp only [List.all_cons, Bool.and_eq_true] at h
+    have he : isPd e = false := by simpa using h.1
+    simp only [List.cons_append, List.findIdx?_cons, he, Bool.false_eq_true, if_false, List.length_cons, ih h.2]
+    rfl
+
+/-- **A DHCPv6 reply that is sent carries what `prefix` answered.** One `prefix` in the chain, before it only elements that
+never end the chain: whenever the stateful server sends a reply, `prefix` was reached, the step is recorded as the event of
+that `PState.handleMsg` (so the records advanced by exactly it), and the IA_PD options of the reply are, in order, the
+encodings of the IA_PDs it answered (`SYS_pd_delivered6`; `SYS_pd_roundtrip6` reads them back). -/
+theorem SYSST_reply_is_event6 (bound : Nat) (oob : Option Nat) (pre post : List Elem6) (x : List PdAns)
+    (hpre : pre.all neverStops6 = true) (hone : (pre ++ post).all (fun e => !isPd e) = true)
+    (ps : PState) (d : Dg6) (cs : List (Option Nat)) (r : Step6)
+    (h : step6 bound oob (pre ++ .pd x :: post) ⟨some ps⟩ d cs = some r)
+    (layers : List Layer6) (resp : Sys.Resp6) (ifidx : Option Nat)
+    (hsend : r.out = .send layers resp ifidx) :
+    ∃ ps' rs cs', ps.handleMsg (opOfDg6 d).client d.iapds d.now cs = some (ps', some rs, cs') ∧
+      r.st = ⟨some ps'⟩ ∧ r.cs = cs' ∧ r.ev = some ⟨(opOfDg6 d).client, d.iapds, d.now, d.now, some rs⟩ ∧
+      resp.opts.filter (fun o => o.1 == 25) = (pdOf rs).map (fun a => (25, encIAPD a)) := by
+  have hpost : post.all (fun e => !isPd e) = true := by
+    rw [List.all_append, Bool.and_eq_true] at hone; exact hone.2
+  have hinst : ∀ out, inst6 out (pre ++ .pd x :: post) = pre ++ .pd out :: post := by
+    intro out
+    have h1 := inst6_noPd out pre (neverStops6_notPd pre hpre)
+    have h2 := inst6_noPd out post hpost
+    simp only [inst6, List.map_append, List.map_cons] at h1 h2 ⊢
+    rw [h1, h2]
+  cases hin : d.input with
+  | none =>
+    simp only [step6, hin, Option.some.injEq] at h
+    subst h
+    simp [serve6] at hsend
+  | some pkt =>
+    simp only [step6, hin] at h
+    cases hh : ps.handleMsg (clientOf pkt) d.iapds d.now cs with
+    | none => rw [hh] at h; cases h
+    | some p =>
+      obtain ⟨ps', mr, cs'⟩ := p
+      rw [hh] at h
+      dsimp only at h
+      rw [hinst] at h
+      -- whichever branch: the reply is `serve6` on the instantiated chain
+      have hout : r.out = serve6 bound oob d.src (pre ++ .pd (pdOut mr) :: post) (some pkt) := by
+        cases hre : reached6 (pre ++ .pd x :: post) (pre ++ .pd (pdOut mr) :: post) pkt <;>
+          (rw [hre] at h; simp only [Bool.false_eq_true, if_false, if_true, Option.some.injEq] at h; subst h; rfl)
+      rw [hout] at hsend
+      obtain ⟨m, r0, hm, h0, _⟩ := serve6_send bound oob d.src _ pkt layers resp ifidx hsend
+      have hre : reached6 (pre ++ .pd x :: post) (pre ++ .pd (pdOut mr) :: post) pkt = true := by
+        simp only [reached6, hm, Option.bind_some, h0, runChain_eq, List.map_append, List.map_cons, pdPos,
+          pdIdx_split pre post x (neverStops6_notPd pre hpre), Option.getD_some]
+        have := go_log_through pkt (pre.map handle6) (by
+          intro g hg r
+          obtain ⟨e, he, rfl⟩ := List.mem_map.mp hg
+          exact sys_neverStops6 e (List.all_eq_true.mp hpre e he) pkt m hm r) (handle6 (.pd (pdOut mr))) (post.map handle6) 0 r0
+        simpa using this
+      rw [hre] at h
+      simp only [if_true, Option.some.injEq] at h
+      subst h
+      -- the message has a Client-ID, so `prefix` answered with IA_PDs
+      have hcl : ∃ c, clientOf pkt = some c := by
+        simp only [clientOf, hm, Option.bind_some]
+        cases hl : lookup 1 m.opts with
+        | none => simp [Sys.stub6, hl] at h0
+        | some c => exact ⟨c, rfl⟩
+      obtain ⟨c, hc⟩ := hcl
+      rw [hc] at hh
+      obtain ⟨rs, rfl⟩ := handleMsg_some_resp ps ps' c d.iapds d.now cs cs' mr hh
+      refine ⟨ps', rs, cs', ?_, rfl, rfl, ?_, ?_⟩
+      · simp only [opOfDg6, hin, Option.bind_some, hc]; exact hh
+      · simp only [opOfDg6, hin, Option.bind_some]
+      · exact SYS_pd_delivered6 bound oob d.src pre post (pdOf rs) pkt hpre hone layers resp ifidx hsend
+
+theorem monotone_iff_pairwise (l : List POp) : POp.monotone l = true ↔ l.Pairwise (fun a b => a.now ≤ b.now) := by
+  induction l with
+  | nil => simp [POp.monotone]
+  | cons a t ih =>
+    cases t with
+    | nil => simp [POp.monotone]
+    | cons b rest =>
+      simp only [POp.monotone, Bool.and_eq_true, decide_eq_true_eq, ih]
+      constructor
+      · rintro ⟨hab, hp⟩
+        refine List.pairwise_cons.mpr ⟨?_, hp⟩
+        intro x hx
+        rcases List.mem_cons.mp hx with rfl | hx'
+        · exact hab
+        · exact Int.le_trans hab ((List.pairwise_cons.mp hp).1 x hx')
+      · intro hp
+        have := List.pairwise_cons.mp hp
+        exact ⟨this.1 b (List.mem_cons_self ..), this.2⟩
+
+/-- **C08 and C09 for the DHCPv6 server over histories of datagrams (monitor form).** Any chain with `prefix` anywhere in it,
+set up on a well-formed pool; any history of datagrams (any layers, messages, options; IA_PDs with hints the library can
+deliver; a clock that does not run backwards), any listener parameters, any admissible stream of allocator choices: the
+events of `prefix` along the run — the messages that reached it with what it answered — satisfy the C08 monitor (every
+delegated prefix in the pool, aligned, with lifetimes 0 < preferred = valid ≤ 1 h, disjoint from every prefix ever delegated
+to another client, every IA_PD answered once under its IAID) and the C09 monitor (a client is returned what it holds) of
+Spec/Prefix.lean. -/
+theorem SYSST_C08_history (pool : Pool6) (hp : pool.WF) (a : A6) (hnew : A6.new pool = .ok a)
+    (bound : Nat) (oob : Option Nat) (chain : List Elem6) (dgs : List Dg6)
+    (hwf : dgs.all (fun d => d.iapds.all IAPDReq.wf) = true)
+    (hmono : POp.monotone (dgs.map opOfDg6) = true)
+    (cs : List (Option Nat)) (tr : List Step6) (z : St6)
+    (h : run6 bound oob chain ⟨some ⟨a, []⟩⟩ dgs cs = some (tr, z)) :
+    C08.holds pool (projEvs6 tr) = true ∧ C09.holds pool (projEvs6 tr) = true := by
+  obtain ⟨z', _, hrun, hsub⟩ := SYSST_prefix_steps_are_handles bound oob chain ⟨a, []⟩ dgs cs tr z h
+  have hwf' : (projOps6 tr).all (fun op => op.iapds.all IAPDReq.wf) = true := by
+    apply List.all_eq_true.mpr
+    intro op hop
+    obtain ⟨d, hd, rfl⟩ := List.mem_map.mp (hsub.subset hop)
+    exact List.all_eq_true.mp hwf d hd
+  have hmono' : POp.monotone (projOps6 tr) = true :=
+    (monotone_iff_pairwise _).mpr (((monotone_iff_pairwise _).mp hmono).sublist hsub)
+  exact ⟨C08_holds pool hp a hnew _ hwf' hmono' cs _ z' hrun, C09_holds pool hp a hnew _ hwf' hmono' cs _ z' hrun⟩
+
+/-- the IA_PD options a step sent -/
+def sentPd (r : Step6) : Option Plug.Opts :=
+  match r.out with
+  | .send _ resp _ => some (resp.opts.filter (fun o => o.1 == 25))
+  | .drop => none
+
+def exReq6 (xid : Nat) (cid : List Nat) : Sys.Pkt6 := ⟨[], some ⟨3, xid, [(1, cid), (25, [0, 0, 0, 1, 0, 0, 0, 0, 0, 0, 0, 0])]⟩, none⟩
+
+/-- `dns`, `prefix 2001:db8::/60 62`: a REQUEST with one IA_PD from client 1, a message without Client-ID (dropped by
+`HandleMsg6`: consumes neither a block nor a choice), a REQUEST from client 2, client 1 again: client 1 is returned the
+block it holds, client 2 another one; the plugin-level history has the three messages that reached `prefix`. -/
+example :
+    ∃ a tr z, A6.new ⟨⟨0x20010db800000000#64, 0#64⟩, 60, 62⟩ = .ok a ∧
+      run6 3 none [.plug (.dns [[32, 1, 13, 184, 0, 0, 0, 0, 0, 0, 0, 0, 0, 0, 0, 83]]), .pd []] ⟨some ⟨a, []⟩⟩
+        [⟨10, ⟨0x20010db800000000#64, 2#64⟩, some (exReq6 1 [1]), [⟨1, []⟩]⟩,
+         ⟨15, ⟨0x20010db800000000#64, 2#64⟩, some ⟨[], some ⟨3, 2, [(25, [])]⟩, none⟩, [⟨1, []⟩]⟩,
+         ⟨20, ⟨0x20010db800000000#64, 2#64⟩, some (exReq6 3 [2]), [⟨1, []⟩]⟩,
+         ⟨30, ⟨0x20010db800000000#64, 2#64⟩, some (exReq6 4 [1]), [⟨1, []⟩]⟩]
+        [some 0, some 1, none] = some (tr, z) ∧
+      tr.map (fun r => r.ev.isSome) = [true, false, true, true] ∧
+      (tr.map sentPd).map Option.isSome = [true, false, true, true] ∧
+      (tr.map sentPd)[0]? = (tr.map sentPd)[3]? ∧ (tr.map sentPd)[0]? ≠ (tr.map sentPd)[2]? ∧
+      (projOps6 tr).map (·.client) = [some [1], some [2], some [1]] ∧
+      C08.holds ⟨⟨0x20010db800000000#64, 0#64⟩, 60, 62⟩ (projEvs6 tr) = true ∧
+      C09.holds ⟨⟨0x20010db800000000#64, 0#64⟩, 60, 62⟩ (projEvs6 tr) = true :=
+  ⟨_, _, _, rfl, rfl, by decide, by decide, by decide, by decide, by decide, by decide, by decide⟩
 
 end CoreDhcp
